@@ -121,6 +121,13 @@ func httpErrorFromResponse(statusCode int, contentType string, src *bytes.Buffer
 		stat.Details = append(stat.Details, body)
 		stat.Code = int32(httpStatusCodeToRPC(statusCode)) //nolint:gosec
 		stat.Message = http.StatusText(statusCode)
+	} else if stat.GetCode() == 0 {
+		// The body parsed as a status (any JSON object without unknown fields
+		// does), but an error response cannot carry the OK code.
+		stat.Code = int32(httpStatusCodeToRPC(statusCode)) //nolint:gosec
+		if stat.GetMessage() == "" {
+			stat.Message = http.StatusText(statusCode)
+		}
 	}
 	connectErr := connect.NewWireError(
 		connect.Code(stat.GetCode()), //nolint:gosec // No information loss.
